@@ -133,13 +133,13 @@ def fake_digest(tag, step):
     return d
 
 
-def build_id(step, fingerprint, platform, relax=True, tag=b"bid", weak_tag=None):
+def build_id(step, fingerprint, platform, relax=True, tag=b"bid", weak_tag=None, weak_names=None):
     """StepIR.getDigestCoro(...) with digests of the dependencies supplied by `fake_digest`.
     With `weak_tag` the providers of weakly used tools get a different digest (another variant is installed)."""
     ir = _ir(step)
     weak_vids = set()
     if weak_tag is not None:
-        weak = set(step.toolDepWeak)
+        weak = set(step.toolDepWeak) if weak_names is None else set(weak_names)
         weak_vids = {t.getStep().getVariantId() for n, t in step.getTools().items() if n in weak}
         strong_vids = {t.getStep().getVariantId() for n, t in step.getTools().items() if n not in weak} | \
             {a.getVariantId() for a in step.getArguments()}
